@@ -214,11 +214,16 @@ func errAliases(e ssa.Value) map[ssa.Value]bool {
 		}
 		for _, p := range cand {
 			ok := true
-			for _, ed := range p.Edges {
+			for i, ed := range p.Edges {
 				if al[ed] {
 					continue
 				}
 				if _, isG := isGlobalErrVarLoad(ed); isG {
+					continue
+				}
+				// the nil constant coming in from where the error is known to be nil (a result variable set to nil on
+				// the success path of a dissolved helper): the merge is nil exactly when the error is
+				if c, isC := ed.(*ssa.Const); isC && c.IsNil() && aliasKnownNilAt(al, p.Block().Preds[i]) {
 					continue
 				}
 				ok = false
@@ -230,6 +235,38 @@ func errAliases(e ssa.Value) map[ssa.Value]bool {
 		}
 	}
 	return al
+}
+
+// aliasKnownNilAt: block b is reached only through the nil side of a test of one of the aliases against nil.
+func aliasKnownNilAt(al map[ssa.Value]bool, b *ssa.BasicBlock) bool {
+	for d := b; d != nil && d.Idom() != nil; d = d.Idom() {
+		id := d.Idom()
+		ifi, ok := id.Instrs[len(id.Instrs)-1].(*ssa.If)
+		if !ok || len(d.Preds) != 1 || d.Preds[0] != id || len(id.Succs) != 2 || id.Succs[0] == id.Succs[1] {
+			continue
+		}
+		bo, ok := ifi.Cond.(*ssa.BinOp)
+		if !ok || (bo.Op != token.EQL && bo.Op != token.NEQ) {
+			continue
+		}
+		var other ssa.Value
+		switch {
+		case al[bo.X]:
+			other = bo.Y
+		case al[bo.Y]:
+			other = bo.X
+		default:
+			continue
+		}
+		if c, ok := other.(*ssa.Const); !ok || !c.IsNil() {
+			continue
+		}
+		onTrue := id.Succs[0] == d
+		if (bo.Op == token.EQL) == onTrue {
+			return true
+		}
+	}
+	return false
 }
 
 func isGlobalErrVarLoad(v ssa.Value) (string, bool) {
